@@ -296,7 +296,7 @@ func genC06(r *core.Rand, run int) *MuxScenario {
 	case f < 7:
 		sp.Fault.Kind = "wbreak"
 	}
-	if tr.proto == "http" && r.Chance(1, 2) {
+	if (tr.proto == "http" || strings.HasPrefix(tr.proto, "grpcweb")) && r.Chance(1, 2) {
 		sp.Fault.Err = "ueof" // HTTP/1.1: a broken body reads as io.ErrUnexpectedEOF
 	}
 	addZeroMessages(r, &sp)
